@@ -189,6 +189,7 @@ def history_inplace(acc, spec, seed, j):
     for which, W in (("exp", PLWriter), ("splot", SPLOTWriter)):
         m = S.build(spec)
         try:
+            w_pre = W(None, m)            # a writer constructed before the edits, asked to transform after them
             W(None, m).transform()
         except Exception:  # noqa: BLE001 - judged by run_case
             continue
@@ -198,6 +199,17 @@ def history_inplace(acc, spec, seed, j):
             continue
         es = copy.deepcopy(spec)
         es["ctcs"][i]["ast"] = t3
+        if len(names) >= 2 and not spec.get("share_nodes"):
+            # the LIST of constraints is edited as well: one more, appended in place or by reassigning the list
+            from flamapy.core.models.ast import AST
+            from flamapy.metamodels.fm_metamodel.models.feature_model import Constraint
+            added = {"name": "added-after-first-export", "ast": ["REQUIRES", names[-1], names[0]]}
+            newc = Constraint(added["name"], AST(S.build_ast(added["ast"])))
+            if r.random() < 0.5:
+                m.ctcs.append(newc)
+            else:
+                m.ctcs = list(m.ctcs) + [newc]
+            es["ctcs"].append(added)
         cls = f"{which}:history:in-place-ast-node"
         key = S.digest([which, "inplace", es])
         acc.programs += 1
@@ -216,6 +228,24 @@ def history_inplace(acc, spec, seed, j):
                      f"(|got|={len(sel)} |fresh|={len(fresh)})", {"which": which, "spec": es, "before": spec, "history": "in-place"}, key)
         else:
             acc.held(cls, key)
+        # the writer constructed before the edits: the edited model's export or (a writer that copies at
+        # construction) the original model's - not a mixture of the two
+        cls = f"{which}:history:writer-constructed-before-edit"
+        try:
+            sel_pre = interpret(which, w_pre.transform(), names)[0]
+            orig = interpret(which, export(which, spec), names)[0]
+        except Exception as e:  # noqa: BLE001
+            # (exports the dependency's known defects make unparseable are judged, and attributed, by run_case)
+            if compare(which, es) is None and compare(which, spec) is None:
+                acc.fail(cls, "no-exception", which, [], f"raises:{type(e).__name__}", str(e)[:200], {"which": which, "spec": es, "before": spec}, key)
+            continue
+        if sel_pre != fresh and sel_pre != orig:
+            acc.fail(cls, "same-configurations", which, [], "mixed-export",
+                     "a writer constructed before in-place edits exported neither the edited nor the original model "
+                     f"(|got|={len(sel_pre)} |edited|={len(fresh)} |original|={len(orig)})",
+                     {"which": which, "spec": es, "before": spec, "history": "writer-before-edit"}, key)
+        else:
+            acc.held(cls, S.digest([which, "pre", es]))
 
 
 def run_wide_sampled(acc, spec, seed, source):
